@@ -1153,7 +1153,24 @@ func (in *inliner) findCall(e ast.Expr) *ast.CallExpr {
 		ok := true
 		ast.Inspect(e, func(n ast.Node) bool {
 			switch x := n.(type) {
-			case *ast.CallExpr, *ast.FuncLit, *ast.IndexExpr, *ast.SliceExpr, *ast.TypeAssertExpr:
+			case *ast.CallExpr:
+				// a conversion, len/cap, or a standard-library function that only computes a value: evaluating it before or
+				// after an expanded call makes no difference
+				if tv, has := in.p.TypesInfo.Types[x.Fun]; has && tv.IsType() {
+					return true
+				}
+				if id, isID := x.Fun.(*ast.Ident); isID {
+					if _, isB := in.p.TypesInfo.Uses[id].(*types.Builtin); isB && (id.Name == "len" || id.Name == "cap") {
+						return true
+					}
+				}
+				if se, isSel := ast.Unparen(x.Fun).(*ast.SelectorExpr); isSel {
+					if fo, isFn := in.p.TypesInfo.Uses[se.Sel].(*types.Func); isFn && fo.Pkg() != nil && isPureStdValueCall(fo.FullName()) {
+						return true
+					}
+				}
+				ok = false
+			case *ast.FuncLit, *ast.IndexExpr, *ast.SliceExpr, *ast.TypeAssertExpr:
 				ok = false
 			case *ast.UnaryExpr:
 				if x.Op == token.ARROW {
